@@ -15,6 +15,8 @@ impl RichField for GoldilocksField {
     fn from_noncanonical_u64(x: u64) -> (r: Self) { unimplemented!() }
     #[verifier::external_body]
     fn to_canonical_u64(&self) -> (r: u64) { unimplemented!() }
+    #[verifier::external_body]
+    fn to_noncanonical_u64(&self) -> (r: u64) { unimplemented!() }
 }
 impl<const D: usize> Extendable<D> for GoldilocksField { }
 pub struct PoseidonGoldilocksConfig { }
